@@ -131,6 +131,7 @@ class PathFacts:
         self.nonneg = nonneg or (lambda a: False)
         self.typed = typed or (lambda a: None)
         self.raw = []
+        self.lin_iv = {}
         for c in conds:
             self.add(c)
         self._closed = False
@@ -186,8 +187,20 @@ class PathFacts:
                     self._dc(x, y, c - (1 if op == 'Lt' else 0))
                 if op in ('Ge', 'Gt', 'Eq'):
                     self._dc(y, x, -c - (1 if op == 'Gt' else 0))
+            else:
+                self._lin_fact(d, op, c)
         elif len(d) == 0:
             pass
+        else:
+            self._lin_fact(d, op, c)
+
+    def _lin_fact(self, d, op, c):
+        """A comparison of a general linear form with a constant: remember the range of the form itself."""
+        key = tuple(sorted(d.items(), key=lambda kv: repr(kv[0])))
+        neg = tuple((a, -k) for a, k in key)
+        s = cmp_set(op, c)
+        self.lin_iv[key] = self.lin_iv.get(key, IntervalSet()).intersect(s)
+        self.lin_iv[neg] = self.lin_iv.get(neg, IntervalSet()).intersect(s.neg())
 
     def _dc(self, a, b, c):
         k = (a, b)
@@ -311,6 +324,12 @@ class PathFacts:
         l = lin(t)
         if not l[0]:
             return IntervalSet([(l[1], l[1])])
+        if len(l[0]) >= 2:
+            key = tuple(sorted(l[0].items(), key=lambda kv: repr(kv[0])))
+            if key in self.lin_iv:
+                base = self.lin_iv[key].shift(l[1])
+                rest = self._range_by_parts(l)
+                return base.intersect(rest) if not rest.empty() else base
         if len(l[0]) == 1:
             (x, k), = l[0].items()
             s = self.range_of(x)
@@ -321,6 +340,9 @@ class PathFacts:
             lo, hi = s.lo(), s.hi()
             vals = [k * lo, k * hi]
             return IntervalSet([(min(vals) + l[1], max(vals) + l[1])])
+        return self._range_by_parts(l)
+
+    def _range_by_parts(self, l):
         lo = hi = l[1]
         for x, k in l[0].items():
             s = self.range_of(x)
